@@ -318,6 +318,7 @@ type lexer struct {
 	items       chan item // channel of scanned items.
 	doubleDelim bool      // flag for tags starting with double braces.
 	lastEmit    item      // type of most recent item emitted
+	base        ast.Pos   // position of the input within the enclosing file (quoted expressions)
 }
 
 // nextItem returns the next item from the input.
@@ -345,11 +346,18 @@ func lex(name, input string) *lexer {
 
 // lexExpr lexes a single expression.
 func lexExpr(name, input string) *lexer {
+	return lexExprAt(name, input, 0)
+}
+
+// lexExprAt lexes a single expression that stands at the given position of an
+// enclosing file: the items it emits are positioned relative to that file.
+func lexExprAt(name, input string, base ast.Pos) *lexer {
 	l := &lexer{
 		name:  name,
 		input: input,
 		items: make(chan item),
 		state: lexInsideTag,
+		base:  base,
 	}
 	go l.run()
 	return l
@@ -391,7 +399,7 @@ func (l *lexer) emit(t itemType) {
 	if l.pos > ast.Pos(len(l.input)) {
 		l.pos = ast.Pos(len(l.input))
 	}
-	l.lastEmit = item{t, l.pos, l.input[l.start:l.pos]}
+	l.lastEmit = item{t, l.base + l.pos, l.input[l.start:l.pos]}
 	l.items <- l.lastEmit
 	l.start = l.pos
 }
@@ -422,11 +430,13 @@ func (l *lexer) acceptRun(valid string) bool {
 // lineNumber reports which line we're on. Doing it this way
 // means we don't have to worry about peek double counting.
 func (l *lexer) lineNumber(pos ast.Pos) int {
+	pos -= l.base
 	return 1 + strings.Count(l.input[:pos], "\n")
 }
 
 // columnNumber reports which column in the current line we're on.
 func (l *lexer) columnNumber(pos ast.Pos) int {
+	pos -= l.base
 	n := strings.LastIndex(l.input[:pos], "\n")
 	if n == -1 {
 		n = 0
@@ -437,7 +447,7 @@ func (l *lexer) columnNumber(pos ast.Pos) int {
 // errorf returns an error item and terminates the scan by passing
 // back a nil pointer that will be the next state, terminating l.nextItem.
 func (l *lexer) errorf(format string, args ...interface{}) stateFn {
-	l.items <- item{itemError, l.pos, fmt.Sprintf(format, args...)}
+	l.items <- item{itemError, l.base + l.pos, fmt.Sprintf(format, args...)}
 	return nil
 }
 
